@@ -697,48 +697,48 @@ theorem textfieldDraw_body_eq_model (R : Ro) (c : Ctx) (st : Nat) (value : List 
          | .ok s => .ok (.tup (.surf s) .nil)
          | .error p => .error (.panic p)) := by
   have hsz : surfaceArgs "textfield.TextField.Draw" 0 = (.maxW, .lit 1) := by decide
-  by_cases h0 : c.maxW = 0
-  · simp [SurfaceBodies.textfieldDraw, SurfaceBodies.textfieldDrawParams, drawField, h0, ofInt_zero]
-  · by_cases h1 : c.maxH = 0
-    · simp [SurfaceBodies.textfieldDraw, SurfaceBodies.textfieldDrawParams, drawField, h0, h1, ofInt_zero]
-    · simp [SurfaceBodies.textfieldDraw, SurfaceBodies.textfieldDrawParams, drawField, h0, h1, ofInt_zero, ofInt_one, hv, hsty, hcur,
-        newSurfaceFor, hsz, evalSz]
-      rw [loopW_iterW R _ 8 _
-        (fun (a : TFSt) => { ρ := [("r", .wid 0), ("v0", .ctx c), ("v1", .surf a.2.2.2.2.1), ("v2", .int a.2.2.1), ("v3", .u16 a.2.2.2.1),
-            ("v4", a.1), ("v5", .clusters a.2.1), ("v6", .int a.2.2.2.2.2)], scr := scr })
-        tfMore (tfStep st) ?_ ?_ (value.length + 1) (Val.str "", value, 0, 0, newSurface exactA c.maxW 1, -1)]
-      · rcases iterW_tf st value (value.length + 1) (Val.str "") 0 0 (newSurface exactA c.maxW 1) (-1) (Nat.lt_succ_self _) with
-          ⟨a1, a2, a3, a4, a5, g1, g2⟩ | ⟨p, g1, g2⟩
-        · rw [List.map_flatten] at g2
-          rw [g1, g2]
-          simp [resW, Step.toRes]
-          by_cases hlt : a2 < cur <;> simp [hlt]
-        · rw [List.map_flatten] at g2
-          rw [g1, g2]; simp [resW, Step.toRes]
-      · intro a
-        obtain ⟨v4, rest, i, col, s, s6⟩ := a
-        cases rest with
-        | nil => simp [tfMore]
-        | cons cl r => simp [tfMore]
-      · intro a hp
-        obtain ⟨v4, rest, i, col, s, s6⟩ := a
-        cases rest with
-        | nil => simp [tfMore] at hp
-        | cons cl r =>
-          simp [tfStep]
-          rw [loopS_foldS R _ 8 (.range "_" "v7")
-            (fun (a : UInt16 × Surface) => { ρ := [("r", .wid 0), ("v0", .ctx c), ("v1", .surf a.2), ("v2", .int i), ("v3", .u16 a.1),
-                ("v4", Val.strOf cl), ("v5", Val.clusters r), ("v6", Val.int 0)], scr := scr })
-            Val.cell (fieldStep st) ?_ cl 0 (col, s)]
-          · rcases foldS_fieldStep st cl col s with ⟨s', g1, _⟩ | ⟨p, g1, _⟩
-            · rw [g1]
-              simp [Step.toRes, hcur]
-              by_cases he : i + 1 = cur <;> simp [he]
-            · rw [g1]; simp [Step.toRes]
-          · intro a ch j
-            obtain ⟨col0, s0⟩ := a
-            simp [fieldStep, hsty, restyle, Step.toRes, ofInt_zero]
-            cases writeCell exactA s0 col0 0 { g := ch.g, w := ch.w, st := st } <;> simp [Step.toRes, u16]
+  by_cases h0 : c.maxW = 0 <;> by_cases h1 : c.maxH = 0
+  · simp [SurfaceBodies.textfieldDraw, SurfaceBodies.textfieldDrawParams, drawField, h0, h1, ofInt_zero]
+  · simp [SurfaceBodies.textfieldDraw, SurfaceBodies.textfieldDrawParams, drawField, h0, h1, ofInt_zero]
+  · simp [SurfaceBodies.textfieldDraw, SurfaceBodies.textfieldDrawParams, drawField, h0, h1, ofInt_zero]
+  · simp [SurfaceBodies.textfieldDraw, SurfaceBodies.textfieldDrawParams, drawField, h0, h1, ofInt_zero, ofInt_one, hv, hsty, hcur,
+      newSurfaceFor, hsz, evalSz]
+    rw [loopW_iterW R _ 8 _
+      (fun (a : TFSt) => { ρ := [("r", .wid 0), ("v0", .ctx c), ("v1", .surf a.2.2.2.2.1), ("v2", .int a.2.2.1), ("v3", .u16 a.2.2.2.1),
+          ("v4", a.1), ("v5", .clusters a.2.1), ("v6", .int a.2.2.2.2.2)], scr := scr })
+      tfMore (tfStep st) ?_ ?_ (value.length + 1) (Val.str "", value, 0, 0, newSurface exactA c.maxW 1, -1)]
+    · rcases iterW_tf st value (value.length + 1) (Val.str "") 0 0 (newSurface exactA c.maxW 1) (-1) (Nat.lt_succ_self _) with
+        ⟨a1, a2, a3, a4, a5, g1, g2⟩ | ⟨p, g1, g2⟩
+      · rw [List.map_flatten] at g2
+        rw [g1, g2]
+        simp [resW, Step.toRes]
+        by_cases hlt : a2 < cur <;> simp [hlt]
+      · rw [List.map_flatten] at g2
+        rw [g1, g2]; simp [resW, Step.toRes]
+    · intro a
+      obtain ⟨v4, rest, i, col, s, s6⟩ := a
+      cases rest with
+      | nil => simp [tfMore]
+      | cons cl r => simp [tfMore]
+    · intro a hp
+      obtain ⟨v4, rest, i, col, s, s6⟩ := a
+      cases rest with
+      | nil => simp [tfMore] at hp
+      | cons cl r =>
+        simp [tfStep]
+        rw [loopS_foldS R _ 8 (.range "_" "v7")
+          (fun (a : UInt16 × Surface) => { ρ := [("r", .wid 0), ("v0", .ctx c), ("v1", .surf a.2), ("v2", .int i), ("v3", .u16 a.1),
+              ("v4", Val.strOf cl), ("v5", Val.clusters r), ("v6", Val.int 0)], scr := scr })
+          Val.cell (fieldStep st) ?_ cl 0 (col, s)]
+        · rcases foldS_fieldStep st cl col s with ⟨s', g1, _⟩ | ⟨p, g1, _⟩
+          · rw [g1]
+            simp [Step.toRes, hcur]
+            by_cases he : i + 1 = cur <;> simp [he]
+          · rw [g1]; simp [Step.toRes]
+        · intro a ch j
+          obtain ⟨col0, s0⟩ := a
+          simp [fieldStep, hsty, restyle, Step.toRes, ofInt_zero]
+          cases writeCell exactA s0 col0 0 { g := ch.g, w := ch.w, st := st } <;> simp [Step.toRes, u16]
 
 /-! ### non-vacuity: the hypotheses on `R` are met by the obvious instances -/
 
